@@ -1,0 +1,57 @@
+//go:build verif
+
+// Contracts for the verification machinery in /verif (govc). Comment-only:
+// this file adds no code to the package. See /verif/DESIGN.md.
+
+package container
+
+//@ func ParseRIFFHeader
+//@   property C05 C17
+//
+//@ func ReadChunkHeader
+//@   property C05 C17
+//
+//@ func NewParser
+//@   property C05
+//
+//@ func (p *Parser) parse
+//@   property C05 C17
+//@   requires p != nil
+//
+//@ func (p *Parser) parseSingleImage
+//@   property C05 C17
+//@   requires p != nil
+//
+//@ func (p *Parser) parseVP8X
+//@   property C05 C17
+//@   requires p != nil
+//
+//@ func (p *Parser) parseVP8XChunks
+//@   property C05 C17
+//@   requires p != nil
+//@   loop 0: decreases len(buf)
+//
+//@ func (p *Parser) parseExtSingleImage
+//@   property C05 C17
+//@   requires p != nil
+//@   loop 0: decreases len(buf)
+//
+//@ func parseANMF
+//@   property C05
+//
+//@ func parseFrameSubChunks
+//@   property C05
+//@   loop 0: decreases len(buf)
+//
+//@ func parseVP8Header
+//@   property C05 C16
+//
+//@ func parseVP8LHeader
+//@   property C05 C16
+//
+//@ func readLE24
+//@   property C05
+//@   requires len(b) >= 3
+//
+//@ func copyBytes
+//@   property C05
